@@ -34,7 +34,7 @@ DELIVERABLES in {BASE}/{ID}/_seed/ :
 Verify the demo on the unchanged tree too: save `git diff -- src > {BASE}/{ID}/_seed/patch.diff`, undo with `git apply -R`, run, re-apply with `git apply`. Do NOT use `git stash` (the stash is shared with other worktrees of this repository and other people are using it). Leave the change applied in the worktree when you finish. Keep your final answer short: one paragraph saying what you changed and what it needs to manifest, then the side observations as a short list.'''
 
 # Round 6: sites none of rounds 1-5 used (see DESIGN.md section 10 for those).
-SITES = {
+SITES6 = {
  "C01": "put the change in how fill names are resolved when they are dynamic (`{% fill name=var %}`, slots whose name comes from a loop variable), in the `required` / `component_vars.is_filled` bookkeeping, or in the placeholder stitching of deferred child output in perfutil/component.py (component_post_render) - not in the default-slot flag logic, not in the outer_context snapshot and not in components/dynamic.py.",
  "C02": "put the change in top-level spreads and `prefix:key=value` aggregation (resolve_params in util/template_tag.py, process_aggregate_kwargs in expression.py), in tag_formatter.py (how the component name / self-closing slash are split off), or in how TagValue filters are applied - not in list/dict literal resolution and not in nested-template-string detection.",
  "C03": "put the change in what happens to the CALLER's Context around a render (push/pop/update balance in component.py, render_context, Context.update / flatten), or in snapshot_context in util/context.py (what is copied by reference vs by value for the deferred render) - not in slots.py, not in _copy_forloop_context and not in whether the get_context_data layer is pushed.",
@@ -56,6 +56,22 @@ SITES = {
  "C19": "put the change in urls.py / cached_script_view (content type, 404 / 405 handling, which cache key is read), in gen_cache_key / get_script_url, or in the fragment-mode list of URLs to load - not in an 'already written' record, not in is_nonempty_str and not in parsing the hash out of the script name.",
  "C20": "put the change in get_component_dirs (COMPONENTS.dirs entries given as tuples (prefix, path), STATICFILES_DIRS fallback, app_dirs, de-duplication of nested / repeated directories), or in _filepath_to_python_module for files found in APP directories versus project directories - not in the glob call and not in with_suffix on __init__.py.",
 }
+
+# Round 7: history-dependent changes - the breakage must need an EARLIER operation in the same process (an earlier render of
+# another page, a class whose data was resolved before, a cache state, a registration order) and must not be one of the
+# mechanisms of rounds 1-6.
+HIST = "The breakage must be HISTORY-DEPENDENT: a fresh process that performs only the failing operation must still behave correctly; it has to take an earlier operation in the same process (an earlier render of another page or component, data of a class resolved earlier, a cache filled or cleared earlier, an earlier failed render, an earlier registration) to make the later operation go wrong. The demo must show both: the operation alone is fine, the same operation after the history is wrong. Do NOT use any of these already-explored mechanisms: "
+SITES7 = {
+ "C04": HIST + "de-duplication keyed by (url, media); inline JS/CSS used as a regex replacement template; a Media merge helper that extends a base class's cached list in place.",
+ "C05": HIST + "register_provide_reference keeping the outermost provider; inject keys forwarded into fills only when the key name is missing; re-using the live {% for %} layer dict in the isolated copy; {% provide %} writing into the current top layer instead of pushing one.",
+ "C06": HIST + "popping post_render_callbacks too early; dropping exception arguments; an error handler that skips its registry clean-up for an exception object it has seen before.",
+ "C10": HIST + "not pushing the outer render-context layer for fills; a fresh BlockContext per component; returning an empty BlockContext uncopied; consuming the nested flag of the patched Template.render; setting context.template_name in every nested render.",
+ "C13": HIST + "an untyped lru_cache around the attribute formatter; merging repeated keywords into a pre-escaped SafeString; an end-tag guard that misses </script/>; truthiness instead of presence in append_attributes.",
+ "C14": HIST + "sibling placeholders sharing one attribute list; clearing child_component_attrs globally when a root render ends; a greedy comment-stripping fast path.",
+ "C16": HIST + "a 'queued' cycle guard that skips an unresolved base; skipping a selected base when a more specific one exists; *_file lookups falling through the pair rule.",
+ "C19": HIST + "a per-process 'already written' record that answers instead of the cache; truthiness instead of is_nonempty_str on either side; classifying the second URL part as an input hash by its shape.",
+}
+SITES = SITES7 if R == "7" else SITES6
 
 os.makedirs(BASE, exist_ok=True)
 n = 0
